@@ -464,3 +464,46 @@ func VerifC13ServedPath() {
 	symx.Assert(got == h2, "served write log applied to the first root does not give the second root")
 	symx.Cover("end")
 }
+
+// VerifC13ServedIOPath (C13 on the real back end, IO root type): an IO root is built from the empty root of its own
+// version; the write log the database serves for the pair (empty root, IO root), applied to an empty IO tree,
+// gives exactly the IO root - before and after finalisation.
+func VerifC13ServedIOPath() {
+	ctx := context.Background()
+	var ns common.Namespace
+	db, err := New(&api.Config{Namespace: ns, MemoryOnly: true, NoFsync: true, MaxCacheSize: 16 * 1024 * 1024})
+	symx.Assert(err == nil, "opening the node database failed")
+	defer db.Close()
+	empty := node.Root{Namespace: ns, Version: 1, Type: node.RootTypeIO}
+	empty.Hash.Empty()
+	t1 := mkvs.New(nil, db, node.RootTypeIO)
+	for i := 0; i < symx.Cfg("k", 2); i++ {
+		key := symx.Bytes(symx.N("key", i), 1)
+		if i > 0 && symx.Bool(symx.N("remove", i)) {
+			symx.Assert(t1.Remove(ctx, key) == nil, "Remove failed")
+		} else {
+			symx.Assert(t1.Insert(ctx, key, symx.Bytes(symx.N("val", i), 1)) == nil, "Insert failed")
+		}
+	}
+	_, h1, err := t1.Commit(ctx, ns, 1)
+	symx.Assert(err == nil, "Commit of the IO root failed")
+	t1.Close()
+	r1 := node.Root{Namespace: ns, Version: 1, Type: node.RootTypeIO, Hash: h1}
+	check := func(label string) {
+		it, err := db.GetWriteLog(ctx, empty, r1)
+		if err != nil {
+			symx.Assert(h1 == empty.Hash, label+": the database does not serve the write log of an IO root")
+			symx.Cover("unchanged-root")
+			return
+		}
+		replica := mkvs.New(nil, nil, node.RootTypeIO)
+		defer replica.Close()
+		symx.Assert(replica.ApplyWriteLog(ctx, it) == nil, label+": applying the served write log failed")
+		_, got, err := replica.Commit(ctx, ns, 1, mkvs.NoPersist())
+		symx.Assert(err == nil && got == h1, label+": served write log applied to the empty root does not give the IO root")
+	}
+	check("before finalisation")
+	symx.Assert(db.Finalize([]node.Root{r1}) == nil, "Finalize failed")
+	check("after finalisation")
+	symx.Cover("end")
+}
